@@ -13,11 +13,14 @@ CONVEX = {
 
 
 def make_cfg(rng: random.Random, profile: str = "c12") -> dict:
+    import os
+
+    deep = os.environ.get("GEOSIM_TIER") == "thorough"
     cfg = {
         "profile": profile,
         "main_dim": rng.choice([2, 3, 3]),
-        "n_steps": rng.choice([5, 8, 12, 16, 24, 32, 40]),
-        "n_clients": rng.choice([1, 2, 2, 3, 4]),
+        "n_steps": rng.choice([5, 8, 12, 16, 24, 32, 40, 60, 80] if deep else [5, 8, 12, 16, 24, 32, 40]),
+        "n_clients": rng.choice([1, 2, 2, 3, 4, 6] if deep else [1, 2, 2, 3, 4]),
         "p_reask": rng.choice([0.2, 0.25, 0.3]),
         "p_fuzzy": rng.choice([0.0, 0.05, 0.15]),
         "p_degenerate": rng.choice([0.0, 0.1, 0.25, 0.4]),
@@ -30,7 +33,7 @@ def make_cfg(rng: random.Random, profile: str = "c12") -> dict:
         "hot": rng.choice([3, 4, 6]),
         "p_hot": rng.choice([0.5, 0.7, 0.85]),
         "quantum_mean": rng.choice([3, 30, 300]),
-        "n_faults": rng.choice([0, 1, 1, 2, 3]),
+        "n_faults": rng.choice([0, 1, 1, 2, 3, 5] if deep else [0, 1, 1, 2, 3]),
         "fault_kinds": rng.sample(["async_interrupt", "async_memerr", "fp_trap", "cache_evict"], rng.randint(1, 4)),
         "p_ws_aim": 0.5,
     }
